@@ -19,10 +19,22 @@ CHECKS = {
  'C04': dict(text='For every Zobrist table: HashKey::init equals the definition of the key, and every do_move/do_null_move changes each key component by exactly the cells of what '
              'changed (pawn part only for pawns), hence incremental key = scratch key on every history (induction) and equal positions have equal keys.',
              note='PIECE_HASH via indicator encoding justified by a syntactic XOR-linearity check on the IR; collision odds of random tables outside the claim', ref='DESIGN.md 2/C04'),
+ 'C05': dict(text='Level A: Search::Search (limits -> depth/time), go, iter_search, check_limits and stop are executed as compiled with the recursive search replaced by its contract; for every '
+             'combination of limits, every root list (incl. searchmoves) and every delivery point of a stop, go() calls Position::uci exactly once with a root move and every reported PV starts with a root move.',
+             note='Level B (one search node: table move only used if in the list, PV assembled from searched moves) is not encoded yet; at most 3 (quick) / 12 (thorough) iterations complete; see assumptions', ref='DESIGN.md 2/C05'),
+ 'C06': dict(text='The real Search::stop() is delivered at every point of the Level A schedule of go(); the solver proves that after it returned no further root search completes and go() returns with its bestmove. '
+             'Data-race freedom of the flag is decided on the IR (the member must be std::atomic).',
+             note='interleavings modelled sequentially (stop() is one store); isready and thread lifetime in uci.cpp not covered; wall-clock promptness not modelled', ref='DESIGN.md 2/C06'),
  'C07': dict(text='is_in_check is proved equal to the rules reference for both colours on symbolic positions; is_checkmate/is_stalemate are proved to be exactly (no generated move) and (in check / not); '
              'is_repeated/threefold_repetition are proved against arbitrary key histories (earlier occurrences, the current entry skipped); rule50 for all 256 clock values; '
              'enough_material for all piece-count vectors (0..10 per kind); is_draw is the disjunction. A lemma query proves the two formulations of the reference attack test equal on every board.',
              note='keys identify positions (C04); history maintenance is C02/C03; empty move list means no legal move (C01); history length bounded by the unwinding (12 quick / 100 thorough)', ref='DESIGN.md 2/C07'),
+ 'C09': dict(text='In the Level A harness print_info is proved to be called with consecutive depths 1,2,..., never above a finite requested depth (0..60, clamping in the constructor included), '
+             'bestmove comes no later than iteration d, and with searchmoves the root list is exactly the given moves and bestmove is one of them.',
+             note='termination of the aspiration loop relies on the contract value range; bounded number of completed iterations', ref='DESIGN.md 2/C09'),
+ 'C10': dict(text='Boundary harnesses with CBMC array-bounds/pointer checks: do_move/undo_move with the history counter at 1, 799, 800 for symbolic positions and moves; add_piece up to ten of a kind; '
+             '(thorough) iter_search with depth limits 41..60. The same checks are active on all translated functions in every other check.',
+             note='I/O layer, std containers, search stack indices inside search()/quiescence_search() and uninitialised reads are not covered', ref='DESIGN.md 2/C10'),
  'C11': dict(text='Every slider lookup (bishop, rook, queen; 64 squares) is proved equal to the ray walk for ALL 2^64 occupancies by the solver, on the tables the '
              'real init() computes; leaper/line/castling tables and shift<>/pawn_attacks are proved equal to their geometric definitions for symbolic squares/bitboards. '
              'No bound other than the fixed trip counts of the reference loops.',
